@@ -103,7 +103,7 @@ theorem parseRule_ruleToks (cfg : Cfg) (name cat : String) (ckb nkb : Nat) (t : 
   have hc := consume_ofStream (t := kw "CONDITIONS" .conditions) (k := ppOr t ++ k)
     (c := tInt nkb :: kw "NEIGHBOURHOOD" .neighbourhood :: tInt ckb :: kw "CUTOFF" .cutoff ::
       tId cat :: kw "CATEGORY" .category :: tId name :: kw "RULE" .rule :: cons) (r := rules) (exp := .conditions) rfl
-  unfold parseRule
+  unfold parseRule parseRuleWith
   generalize hb : (ofStream (ruleToks name cat ckb nkb t ++ k) cons rules).budget = fuel at hpp hext hf
   subst hf
   simp only [ruleToks, List.cons_append, List.nil_append, List.append_assoc] at hext hend' ⊢
